@@ -397,7 +397,8 @@ def _coq_eval_once(workdir, name, preamble, exprs, shard=300, timeout=600, jobs=
         f = workdir / f"{name}_{k//shard:04d}.v"
         body = [CASE_HEADER, preamble, ""]
         for j, e in enumerate(exprs[k:k + shard]):
-            body.append(f"Eval vm_compute in ({k+j}%nat, {e}).")
+            # the case label is a Z literal (a unary nat label costs time linear in its value: quadratic over a run)
+            body.append(f"Eval vm_compute in ({k+j}%Z, {e}).")
         f.write_text("\n".join(body) + "\n")
         shards.append(f)
     results = [None] * len(exprs)
@@ -410,7 +411,7 @@ def _coq_eval_once(workdir, name, preamble, exprs, shard=300, timeout=600, jobs=
         for f, rc, out in ex.map(run, shards):
             if rc != 0:
                 logs.append(f"{f.name}: rc={rc}\n{out[-3000:]}")
-            for m in re.finditer(r"(?ms)^\s*= \((\d+)%nat, (.*?)\)\s*\n\s*: ", out):
+            for m in re.finditer(r"(?ms)^\s*= \((\d+)(?:%Z|%nat)?, (.*?)\)\s*\n\s*: ", out):
                 try:
                     results[int(m.group(1))] = parse_term(m.group(2))
                 except Exception as e:  # noqa
@@ -524,7 +525,10 @@ class Ctx:
         mod = "Typhon." + props_file[:-2].replace("/", ".")
         try:
             out = open(self.work / f"coqchk_{mod}.log", "w")
-            pr = subprocess.Popen(["nice", "-n", "5", "coqchk", "-silent", "-o", *COQ_ARGS, mod], stdout=out,
+            # -bytecode-compiler yes: vm_compute casts (the 146 097-day calendar sweeps, the tile table) are replayed with
+            # the VM as coqc does; without it coqchk needs 15+ minutes for Base.CalendarProofs alone. The VM-free pass is
+            # available through COQCHK_NOVM=1 tools/coqchk_all.sh
+            pr = subprocess.Popen(["nice", "-n", "5", "coqchk", "-silent", "-o", "-bytecode-compiler", "yes", *COQ_ARGS, mod], stdout=out,
                                   stderr=subprocess.STDOUT, cwd=str(COQ))
             self._coqchk = getattr(self, "_coqchk", []) + [(pr, mod, time.time(), out)]
         except Exception as e:  # noqa
